@@ -1407,6 +1407,11 @@ func (s *Store) getIDForURI(txn *badger.Txn, uri string) (uint64, bool, error) {
 }
 
 func (s *Store) commitIDTxn() error {
+	// datasets always assert ids on the store they belong to. a contextual store has to
+	// commit that store's id transaction, not its own (always empty) one
+	if s.parent != nil {
+		return s.parent.commitIDTxn()
+	}
 	s.idmux.Lock()
 	defer s.idmux.Unlock()
 
@@ -1462,6 +1467,10 @@ func (s *Store) assertIDForURI(uri string, localTxnCache map[string]uint64) (uin
 	rid, exists = localTxnCache[uri]
 	if exists {
 		return rid, false, nil
+	}
+
+	if s.parent != nil {
+		return s.parent.assertIDForURI(uri, localTxnCache)
 	}
 
 	// add lock
